@@ -51,6 +51,19 @@ theorem c11_facts_shape :
     Generated.starsShape = "count x/X over the operator slots __ops__[1::2]" ∧
     Generated.specSelfWrites.filter (·.1 == "Assign") = [] := by decide
 
+/-- **Facts obligation, S-rooted destinations**: `Assign.__init__` passes its path through
+    `_s_first_item`, which re-spells a first step written `S.name` / `Path(S, name)` as `S[name]` —
+    for exactly the ops `_t_eval` hands to `_s_first_magic` when such a path is *read*: the
+    destination an Assign keeps is the path as it is evaluated (`readSteps`), so "reading the path"
+    and "assigning to the path" speak about the same scope variable. -/
+theorem c11_facts_s_first (sroot : Bool) (steps : List Step) :
+    initPath (genSFirst "Assign") sroot steps = readSteps sroot steps ∧
+    Generated.sFirstMagicOps = [".", "P"] := by
+  refine ⟨?_, by decide⟩
+  have ht : genSFirst "Assign" = [(".", "["), ("P", "[")] := by decide
+  rw [ht]
+  exact initPath_eq_readSteps sroot steps
+
 /-- **Same object**: whatever `assign` returns is the target it was given (identity — the same
     `Val`, i.e. the same address).  For *every* input: wildcards, S-rooted, any `missing`. -/
 theorem c11_same_object (env : MEnv) (sroot : Bool) (sref : Val) (missing : Missing) (h : Heap)
@@ -69,6 +82,17 @@ theorem c11_refines {env : MEnv} {h : Heap} {target : Val} {sroot : Bool} {orig 
   by
     obtain ⟨hwf, hc, hs, hv, hvu, hm⟩ := covered_parts hy
     exact assign_spec hwf hc sroot sref missing h target orig vs hs hv hvu hm
+
+/-- **Refinement, from the spec as written**: `glom(target, Assign(path, val, missing))` — with
+    `Assign.__init__`'s re-spelling of the first step of an S-rooted path — refines the
+    plain-Python assignment along the path *as it is read* (`S.a` ≡ `S['a']`). -/
+theorem c11_refines_spec {env : MEnv} {h : Heap} {target : Val} {sroot : Bool} {orig : List Step}
+    {vs : ValSpec} {missing : Missing}
+    (hy : Hyps env h target sroot (readSteps sroot orig) vs missing) (sref : Val) :
+    Refines h target (assign env sroot sref missing h target (initPath (genSFirst "Assign") sroot orig) vs)
+      (refAssign env h target (if sroot then sref else target) (readSteps sroot orig) vs missing) := by
+  rw [(c11_facts_s_first sroot orig).1]
+  exact c11_refines hy sref
 
 /-- **Equals plain Python**: a successful assign leaves exactly the heap of the corresponding
     nested item / attribute assignment (`refAssign … = .ok h' …`), and conversely the model
@@ -490,6 +514,15 @@ example :
     r.1.2 = .ok (.ref 0) ∧ r.1.1.calls = 1 ∧
     r.1.1.heap[1]? = some (.dict "Scope" [(.str "d", .ref 0), (.str "cfg", .ref 2)]) ∧
     r.1.1.heap[2]? = some (.dict "dict" [(.str "a", .int 5)]) ∧
+    ReadObs.beq (observeRead sEnv r.2) (.ok (.leaf (.int 5))) = true := by decide
+/-- `glom(t, (Assign(S.cfg.a, 5, missing=dict), S.cfg.a))` (repaired defect 94a9ae1: the first step
+    of an S-rooted destination names the scope variable, as it does when the path is read) -/
+example :
+    let r := assignThenRead sEnv true (.ref 1) (.factory "dict") sHeap (.ref 0)
+      (initPath (genSFirst "Assign") true [(".", .str "cfg"), ("[", .str "a")]) (.lit (.int 5))
+      [(".", .str "cfg"), ("[", .str "a")]
+    r.1.2 = .ok (.ref 0) ∧
+    r.1.1.heap[1]? = some (.dict "Scope" [(.str "d", .ref 0), (.str "cfg", .ref 2)]) ∧
     ReadObs.beq (observeRead sEnv r.2) (.ok (.leaf (.int 5))) = true := by decide
 /-- … and the hypotheses of `c11_read_checks` / of put-get hold for it -/
 example : Hyps sEnv sHeap (.ref 0) true [("[", .str "cfg"), ("[", .str "a")] (.lit (.int 5)) (.factory "dict") ∧
